@@ -121,12 +121,13 @@ impl VBuf {
     fn len(&self) -> (r: usize) ensures r == self@.len() { unimplemented!() }
     #[verifier::external_body]
     fn is_empty(&self) -> (r: bool) ensures r == (self@.len() == 0) { unimplemented!() }
-    /// `buf.iter().position(|b| *b == b'\n')`: index of the first newline
+    /// `buf.iter().position(|&b| b == X)` (REAL contract of `Iterator::position` with that predicate): index of the
+    /// first byte equal to X in the WINDOW, `None` when the window has none -- nothing about what lies behind it
     #[verifier::external_body]
-    fn position_nl(&self) -> (r: Option<usize>)
+    fn position_eq(&self, x: u8) -> (r: Option<usize>)
         ensures
-            r matches Some(i) ==> i < self@.len() && self@[i as int] == 10u8 && forall|k: int| 0 <= k < i ==> self@[k] != 10u8,
-            r is None ==> forall|k: int| 0 <= k < self@.len() ==> self@[k] != 10u8,
+            r matches Some(i) ==> i < self@.len() && self@[i as int] == x && forall|k: int| 0 <= k < i ==> self@[k] != x,
+            r is None ==> forall|k: int| 0 <= k < self@.len() ==> self@[k] != x,
     { unimplemented!() }
 }
 
@@ -224,6 +225,7 @@ pub fn split_file_into_chunks_by_size(f: VLines, chunks: u64) -> (r: Result<Vec<
 
         let ghost v0 = chunk_vec@;
         proof {
+            assert(is_cut(c, chunk_end as int)); 
             assert(chunk_end as int == (if target < c.len() { nls(c, target) } else { target })); 
         }
         chunk_vec.push((chunk_start, chunk_end));
